@@ -18,12 +18,13 @@ SPEC = dict(
          "(case-folded) query AND whose fresh answer differs from that previous answer ('answer-changing delta'), distinct by (history, query, field, step). "
          "A quarter of the histories run with a semantic word table loaded; a quarter of the database replacements happen while the cache is switched off (and on again "
          "afterwards); half of the look-alike request sequences carry a boost that is not a finite number. "
-         "Every other answer with two or more results is edited in place by the harness after it has been recorded (entries swapped, scores overwritten, a pointer cleared), as a caller that re-sorts "
+         "boost-twin-*: on a database that names the words of the query analysis as commands, every analysis phrase (and 400 random word pairs) is asked with a boost on each of up to four terms the enhancement adds, "
+         "then without boosts, through one wrapper. Every other answer with two or more results is edited in place by the harness after it has been recorded (entries swapped, scores overwritten, a pointer cleared), as a caller that re-sorts "
          "its list would; a sixth of the histories ask for misspelt accented words in which the accent is one byte that is not valid UTF-8 (0xE9 / 0xE8 / 0xFF).",
-    floors=T({"answers-edited-in-place-by-the-caller": 4000, "histories-with-queries-differing-in-one-invalid-byte": 100, "histories-with-embeddings": 150, "op-update-database-while-the-cache-is-off": 250, "look-alike-sequences-with-a-non-finite-boost": 40, "look-alike-request-steps": 1000, "analysis-vocabulary-sweep": 5000, "unicode-case-twin-queries": 100, "hit-steps": 1000, "miss-steps": 1500, "hits-with-over-100-results": 20, "hits-with-query-over-1000-bytes": 15, "long-twin-queries": 100, "repeat-hit": 300, "case-variant-hit": 50, "op-update-database": 100, "op-advance": 100,
+    floors=T({"boost-twin-requests": 400, "boost-twin-sequences-with-different-answers": 100, "answers-edited-in-place-by-the-caller": 4000, "histories-with-queries-differing-in-one-invalid-byte": 100, "histories-with-embeddings": 150, "op-update-database-while-the-cache-is-off": 250, "look-alike-sequences-with-a-non-finite-boost": 40, "look-alike-request-steps": 1000, "analysis-vocabulary-sweep": 5000, "unicode-case-twin-queries": 100, "hit-steps": 1000, "miss-steps": 1500, "hits-with-over-100-results": 20, "hits-with-query-over-1000-bytes": 15, "long-twin-queries": 100, "repeat-hit": 300, "case-variant-hit": 50, "op-update-database": 100, "op-advance": 100,
               "answer-changing-delta:AllPlatforms": 20, "answer-changing-delta:TopTermsCap": 5, "answer-changing-delta:Limit": 20,
               "answer-changing-delta:UseNLP": 20, "answer-changing-delta:PipelineOnly": 20, "answer-changing-delta:Platforms": 10, "answer-changing-delta:NoCrossPlatform": 10, "distinct_nontrivial": 300},
-             {"answers-edited-in-place-by-the-caller": 60000, "histories-with-queries-differing-in-one-invalid-byte": 1500, "histories-with-embeddings": 1500, "op-update-database-while-the-cache-is-off": 3000, "look-alike-sequences-with-a-non-finite-boost": 1500, "look-alike-request-steps": 40000, "analysis-vocabulary-sweep": 5000, "unicode-case-twin-queries": 4000, "hit-steps": 15000, "miss-steps": 15000, "hits-with-over-100-results": 500, "hits-with-query-over-1000-bytes": 300, "long-twin-queries": 2000, "repeat-hit": 3000, "case-variant-hit": 500, "op-update-database": 1000, "op-advance": 1000,
+             {"boost-twin-requests": 400, "boost-twin-sequences-with-different-answers": 100, "answers-edited-in-place-by-the-caller": 60000, "histories-with-queries-differing-in-one-invalid-byte": 1500, "histories-with-embeddings": 1500, "op-update-database-while-the-cache-is-off": 3000, "look-alike-sequences-with-a-non-finite-boost": 1500, "look-alike-request-steps": 40000, "analysis-vocabulary-sweep": 5000, "unicode-case-twin-queries": 4000, "hit-steps": 15000, "miss-steps": 15000, "hits-with-over-100-results": 500, "hits-with-query-over-1000-bytes": 300, "long-twin-queries": 2000, "repeat-hit": 3000, "case-variant-hit": 500, "op-update-database": 1000, "op-advance": 1000,
               "answer-changing-delta:AllPlatforms": 200, "answer-changing-delta:TopTermsCap": 50, "answer-changing-delta:Limit": 200,
               "answer-changing-delta:UseNLP": 200, "answer-changing-delta:PipelineOnly": 200, "answer-changing-delta:Platforms": 100, "answer-changing-delta:NoCrossPlatform": 100, "distinct_nontrivial": 3000}),
     assumptions=["whitespace-padded variants are outside the property's quantifier (repeats and case variants) and are not generated",
